@@ -32,6 +32,11 @@ def log_event(i, with_proc, with_tid):
     if with_proc:
         e['p'] = 0
         e['pid'] = 40 + i
+    if i % 2 == 0:
+        # a decomposed message: a literal, a SCALAR argument whose value (3, also a number of the string index) is not a string, a string
+        # argument that is one
+        e['dm'] = {'pc': 2, 's': 0, 'seg': [{'lp': 1, 'p': {'w': 0, 'p': 0}, 'a': {'c': 1, 'or': 3 + i}},
+                                            {'p': {'w': 0, 'p': 0, 'rs': 4}, 'a': {'c': 2, 'or': 3}}]}
     return e
 
 
@@ -170,6 +175,13 @@ def judge(blob, threads, recs, kseq, cpu, parser=None, offset=0, buffered=0):
                     or lg.process_identifier != raw.get('pid', 0)):
                 bad.append(('v3-log-content', {'got': repr(lg)[:300], 'raw': repr(raw)[:300]}))
                 break
+            if 'dm' in raw:
+                segs = (lg.decomposed_message or {}).get('segments') or [{}, {}]
+                want = [raw['dm']['seg'][0]['a']['or'], rev[raw['dm']['seg'][1]['a']['or']]]
+                got_or = [sg.get('arg', {}).get('object_representation') for sg in segs]
+                if got_or != want or segs[0].get('literal_prefix') != rev[1] or segs[1].get('placeholder', {}).get('raw_string') != rev[4]:
+                    bad.append(('v3-log-content:decomposed-message', {'got': repr(lg.decomposed_message)[:300], 'expected_representations': repr(want)}))
+                    break
         for raw in m['logs']:
             if 'p' in raw and raw['tid']:
                 exp_tp[raw['tid']] = raw['pid']
